@@ -30,6 +30,7 @@ func (s *scope) set(name string, val value) {
 		return
 	}
 	s.values[name] = val
+	verifVar("Declare", name, val)
 }
 
 func (s *scope) update(name string, val value) {
@@ -38,6 +39,7 @@ func (s *scope) update(name string, val value) {
 	}
 	if _, ok := s.values[name]; ok {
 		s.values[name] = val
+		verifVar("Update", name, val)
 		return
 	}
 	if s.outer == nil {
